@@ -1099,7 +1099,21 @@ fn case_iterator_faults(out: &mut CaseOut, seed: u64, idx: u64) {
 
 const GROUP_EVERY: u64 = 20;
 
+/// A failing file-system call is answered with an error, not with a thread that dies: a panic on
+/// one of raindb's threads during a fault run counts (the worker of an open that failed used to die
+/// on its closed channel until the repair D31).
 pub fn run_case(tier: &str, seed: u64, idx: u64) -> CaseOut {
+    let mut out = run_case_inner(tier, seed, idx);
+    for p in watch::bg_panics() {
+        out.violate(
+            format!("C08/bg-thread-panic/{}", watch::short_location(&p.location)),
+            json!({"thread": p.thread, "message": p.message, "location": p.location, "sample": out.sample}),
+        );
+    }
+    out
+}
+
+fn run_case_inner(tier: &str, seed: u64, idx: u64) -> CaseOut {
     let mut out = CaseOut::new();
     // the cases behind the single-fault enumeration tie the fault to a phase of the background work
     let singles = if tier == "quick" { SINGLE_QUICK } else { SINGLE_THOROUGH };
